@@ -129,3 +129,27 @@ def conf_patterns(engine):
 
 
 REG.custom('C14', 'get_variable_regex.patterns', conf_patterns, note='SMT comparison of the live scanner patterns with the documented placeholder grammar')
+
+
+# ---- C01 / C02: what counts as an escape sequence inside '...' (reference manual, "Strings": \\ \' \a \b \f \n \r \t \v, \ooo,
+# \xhh, \uxxxx, \Uxxxxxxxx, \N{name}) — ONE pattern, applied in ONE pass (the contract of StringNode.escape), so that the text an escape
+# produces is never read as the beginning of another escape
+def escape_pattern(engine):
+    mod = src.import_module('mesonbuild/mparser.py')
+    notes = set()
+    real = need(rx.whole_language(mod.ESCAPE_SEQUENCE_SINGLE_RE, notes), 'ESCAPE_SEQUENCE_SINGLE_RE')
+    HEX = z3.Union(DIG, z3.Range('a', 'f'), z3.Range('A', 'F'))
+    OCT = z3.Range('0', '7')
+    NOTBRACE = z3.Intersect(z3.AllChar(z3.ReSort(z3.StringSort())), z3.Complement(z3.Re('}')))
+    bs = z3.Re('\\')
+    spec = z3.Union(z3.Concat(bs, z3.Re('U'), *([HEX] * 8)), z3.Concat(bs, z3.Re('u'), *([HEX] * 4)), z3.Concat(bs, z3.Re('x'), HEX, HEX),
+                    z3.Concat(bs, OCT), z3.Concat(bs, OCT, OCT), z3.Concat(bs, OCT, OCT, OCT),
+                    z3.Concat(bs, z3.Re('N{'), z3.Plus(NOTBRACE), z3.Re('}')),
+                    z3.Concat(bs, R('\\', "'", 'a', 'b', 'f', 'n', 'r', 't', 'v')))
+    for n_ in notes:
+        engine.assumptions.add(n_)
+    return [same_language('ESCAPE_SEQUENCE_SINGLE_RE', real, spec, "the escape sequences of a '...' literal are exactly the documented ones — the single-character escapes (the escaped backslash among them) in the SAME pattern as the numeric and named ones")]
+
+
+for _p in ('C01', 'C02'):
+    REG.custom(_p, 'StringNode.escape_pattern' + ('' if _p == 'C02' else '[C01]'), escape_pattern, note="SMT comparison of the live escape pattern with the documented escape sequences of '...' literals")
